@@ -7,6 +7,7 @@ from mirsym import models
 
 REQ_METHODS = {'Shutdown': 'shutdown', 'SemanticTokensFullRequest': 'textDocument/semanticTokens/full'}
 NOTIF_METHODS = {'Exit': 'exit', 'DidOpenTextDocument': 'textDocument/didOpen', 'DidChangeTextDocument': 'textDocument/didChange'}
+MORE_NOTIF_METHODS = {'Cancel': '$/cancelRequest', 'DidCloseTextDocument': 'textDocument/didClose', 'DidSaveTextDocument': 'textDocument/didSave', 'Initialized': 'initialized'}
 
 def mkstruct(P, name, **kw):
     fs = [f for f, _ in P.structs.get(name, [])]
@@ -56,7 +57,40 @@ class Env:
             if part == 'as_str': return Ref(Cell(Str(t)))
             rest = t.split(':', 1)[1]
             return Ref(Cell(Str(re.sub(r'^//[^/]*', '', rest))))
+        # lsp_server::ReqQueue by contract: `incoming.pending` is the set of request ids registered and not yet completed / cancelled
+        def rq(M, v):
+            while isinstance(v, Ref): v = M.deref(v)
+            return v
+        def id_eq(M, x, y):
+            x = rq(M, x); y = rq(M, y)
+            a_, b_ = x.f[0], y.f[0]
+            if isinstance(a_, (Str, SymStr)) != isinstance(b_, (Str, SymStr)): return False
+            if isinstance(a_, (Str, SymStr)): return M.branch(models.str_eq(M, a_, b_))
+            return M.branch(v_eq(a_, b_))
+        def st_rq_default(M, fr, callee, a): return Agg('ReqQueue', [Agg('Incoming', [VecV()]), Agg('Outgoing', [VecV()])])
+        def st_in_register(M, fr, callee, a): rq(M, a[0]).f[0].items.append(Agg('()', [deep_clone(rq(M, a[1])), a[2]])); return UNIT
+        def _take(M, inc, rid):
+            for k, e in enumerate(inc.f[0].items):
+                if id_eq(M, e.f[0], rid): return inc.f[0].items.pop(k)
+            return None
+        def st_in_complete(M, fr, callee, a):
+            e = _take(M, rq(M, a[0]), a[1]); return some(e.f[1]) if e is not None else none()
+        def st_in_cancel(M, fr, callee, a):
+            e = _take(M, rq(M, a[0]), a[1])
+            if e is None: return none()
+            return some(Agg('Response', [deep_clone(rq(M, a[1])), none(), some(Agg('ResponseError', [-32800, Str('canceled by client'), none()]))]))
+        def st_in_is_completed(M, fr, callee, a):
+            inc = rq(M, a[0])
+            for e in inc.f[0].items:
+                if id_eq(M, e.f[0], a[1]): return False
+            return True
+        def st_rid_from(M, fr, callee, a): return Agg('RequestId', [a[0]])
         return {
+            r'^<lsp_server::ReqQueue<.*> as std::default::Default>::default$': st_rq_default,
+            r'^lsp_server::(req_queue::)?Incoming::<.*>::register$': st_in_register, r'^lsp_server::(req_queue::)?Incoming::<.*>::complete$': st_in_complete,
+            r'^lsp_server::(req_queue::)?Incoming::<.*>::cancel$': st_in_cancel, r'^lsp_server::(req_queue::)?Incoming::<.*>::is_completed$': st_in_is_completed,
+            r'^<lsp_server::RequestId as std::convert::From<(i32|std::string::String)>>::from$': st_rid_from,
+            r'^<(i32|std::string::String) as std::convert::Into<lsp_server::RequestId>>::into$': st_rid_from,
             r'^crossbeam_channel::Sender::<.*>::send$': st_send,
             r'^lsp_server::Response::new_ok': st_new_ok,
             r'^lsp_server::Response::new_err': st_new_err,
